@@ -9,6 +9,7 @@ events."""
 import json
 import os
 import shutil
+import subprocess
 import tempfile
 
 import core
@@ -307,6 +308,48 @@ def run_huge(mode):
         shutil.rmtree(wd, ignore_errors=True)
 
 
+def run_twofs(variant):
+    """No fault: a previous job has left its finished trace in the trace directory; the new job writes
+    through OVNI_TMPDIR on another file system.  Both are fresh tmpfs in a private mount namespace, so the
+    old files in the trace directory and the new temporary files carry equal inode numbers on different
+    devices.  After the normal end the usual examination applies to the trace directory."""
+    chk, drv = _CTX["chk"], _CTX["drv"]
+    wd = os.path.join(chk.scratch, "twofs-%d" % os.getpid())
+    shutil.rmtree(wd, ignore_errors=True)
+    for d in ("A", "B"):
+        os.makedirs(os.path.join(wd, d))
+    res = {"arg": ("twofs-" + variant, "tmp-other-fs", "none", 0, 0), "viol": None, "fired": False, "sig": None}
+    holder = subprocess.Popen(["unshare", "-m", "sh", "-c",
+                               "mount -t tmpfs none %s/A && mount -t tmpfs none %s/B && echo ready && exec sleep 600"
+                               % (wd, wd)], stdout=subprocess.PIPE, stderr=subprocess.DEVNULL)
+    try:
+        if holder.stdout.readline().strip() != b"ready":
+            return res                      # no permission to mount: not fired, counted as inconclusive
+        wrapper = ["nsenter", "-t", str(holder.pid), "-m"]
+        tr = os.path.join(wd, "B", "ovni")
+        r0 = rt.run_script(drv, script_single("small"), wd, env={"OVNI_TRACEDIR": tr}, timeout=120, inline=True,
+                           wrapper=wrapper)
+        if r0.rc != 0 or "RTDRV-DONE" not in r0.out:
+            return res
+        shutil.rmtree(os.path.join(wd, "log"), ignore_errors=True)
+        r = rt.run_script(drv, script_single(variant), wd, timeout=120, inline=True, wrapper=wrapper,
+                          env={"OVNI_TRACEDIR": tr, "OVNI_TMPDIR": os.path.join(wd, "A", "tmp")})
+        subprocess.call(wrapper + ["cp", "-r", tr, os.path.join(wd, "trace")])
+        if r.timeout or r.rc != 0 or "RTDRV-DONE" not in r.out:
+            return res
+        res["fired"] = True
+        v, sig = examine(wd, os.path.join(wd, "log"))
+        res["sig"] = sig
+        if v:
+            res["viol"] = (v[0] + ":tmp-other-fs", v[1] + " (no fault injected; previous job's trace in the directory, "
+                           "OVNI_TMPDIR on another file system with equal inode numbers)",
+                           {"script": "twofs-" + variant, "mode": "tmp-other-fs"})
+        return res
+    finally:
+        holder.kill(); holder.wait()
+        shutil.rmtree(wd, ignore_errors=True)
+
+
 class NoFaultViolation(Exception):
     """The run without any injected fault already fails the oracle."""
 
@@ -448,11 +491,20 @@ def main(argv):
         per_mode[res["arg"][1]] = per_mode.get(res["arg"][1], 0) + 1
         if res["viol"]:
             chk.report(res["viol"][0], res["viol"][1], res["viol"][2])
+    for res in core.pmap(run_twofs, ["nearcap", "bigmeta"] if quick else ["nearcap", "bigmeta", "autoflush", "autoflush-normal"], jobs=2):
+        if not res["fired"]:
+            nofire += 1
+            continue
+        fired += 1
+        states.add((res["arg"][1], res["sig"]))
+        per_mode[res["arg"][1]] = per_mode.get(res["arg"][1], 0) + 1
+        if res["viol"]:
+            chk.report(res["viol"][0], res["viol"][1], res["viol"][2])
     chk.inconclusive += nofire
     cov = {"evaluations": fired, "distinct_nontrivial": len(states), "aligned_stream_sizes": aligned,
            "rule": "kill points = every (file system call, occurrence) of the strace baseline of each deterministic "
                    "single-thread script after the first runtime mkdir, in direct mode and with OVNI_TMPDIR on tmpfs and on "
-                   "ext4 (exhaustive per script and mode, except that long runs of identical 1 KiB copy reads/writes are sampled), and one failed write/close/open/read per such point; one run without any fault writing a stream larger than 2 GiB; plus sampled points of a 3-thread script; a point counts when "
+                   "ext4 (exhaustive per script and mode, except that long runs of identical 1 KiB copy reads/writes are sampled), and one failed write/close/open/read per such point; one run without any fault writing a stream larger than 2 GiB; runs without fault after a previous job, OVNI_TMPDIR on a second file system with equal inode numbers; plus sampled points of a 3-thread script; a point counts when "
                    "strace reports the SIGKILL. distinct_nontrivial = distinct (mode, final-directory state) signatures "
                    "observed after the kill (per stream: metadata present/torn, finished or not, data none/lacking/complete; "
                    "emulator verdict)",
